@@ -516,3 +516,7 @@ def run(ctx):
     _run_main_nf(ctx)
     _NF.narrow_oracles(ctx, 'C13', _narrow_table())
     ctx.flush()
+
+
+# evidence: how the model is tied to the source on every run (as built, supersedes the value above)
+TIE = 'translator (peak-only series -> Gen/PeakSeries, power-law functions -> Gen/ImPower; Props/C13GenSeries, C13Gen) + correspondence'
